@@ -204,12 +204,14 @@ def wl_laws(run, rng, idx):
         ashape, bshape = (), ()
     r //= len(AB_SHAPES)
     hyp = G.KINDS[kind][1]
-    n = c04.dims_for(kind, r)
+    n = c04.dims_for(kind, r + idx // 13)
     # map classes: hyperbolic objects get isometries, except every 4th round
     # where the linear part of the laws is exercised with a general matrix
-    general_on_hyp = hyp and (r % 4 == 3)
+    # (classes tied to the case index, not to the slow counter r, so that the
+    # quick tier sees every one of them)
+    general_on_hyp = hyp and (r % 4 == 3 or idx % 5 == 4)
     tkind = "H.Isometry" if (hyp and not general_on_hyp) else "P.Transformation"
-    cx = (not hyp) and (r % 3 == 2)
+    cx = (not hyp) and (r % 3 == 2 or idx % 3 == 2)
     raw = G.draw(rng, kind, n, oshape, cx=cx)
     araw = G.draw(rng, tkind, n, ashape, cx=cx)
     braw = G.draw(rng, tkind, n, bshape, cx=cx)
@@ -223,6 +225,26 @@ def wl_laws(run, rng, idx):
     MA, MB = G.row_matrix(tkind, araw), G.row_matrix(tkind, braw)
     check_laws(run, mon, kind, n, oshape, ashape, bshape, tkind, cx, raw, X, A, B, MA, MB,
                case, idx)
+    if general_on_hyp and G.KINDS[kind][3] is not None:
+        # mixed pair on a hyperbolic object with derived data: A a general
+        # projective Transformation, B an Isometry.  A @ B is then an Isometry
+        # *object* carrying the matrix A.B, and associativity must still hold on
+        # the derived data (seeded change C03-r2-2: derived data transported by
+        # Isometry objects but recomputed under plain Transformations)
+        b2raw = G.draw(rng, "H.Isometry", n, bshape)
+        B2 = G.build("H.Isometry", b2raw)
+        MB2 = G.row_matrix("H.Isometry", b2raw)
+        case2 = dict(case, B=b2raw, maps="P.Transformation @ H.Isometry")
+        run.current_case = case2
+        cA = float(np.max(np.linalg.cond(MA)))
+        cB = float(np.max(np.linalg.cond(MB2)))
+        tol = BASE_TOL * (1.0 + cA * cB)
+        L = (A @ B2) @ X
+        R = A @ (B2 @ X)
+        same_object(run, mon, "associativity-mixed-classes", kind, L, R, tol, case2)
+        IY = P.identity(n) @ L
+        same_object(run, mon, "identity-after-mixed-product", kind, IY, L, 1e-12, case2)
+        run.note_class("associativity-mixed", kind, n, oshape, ashape, bshape)
 
 
 def check_laws(run, mon, kind, n, oshape, ashape, bshape, tkind, cx, raw, X, A, B, MA, MB,
@@ -450,18 +472,50 @@ def wl_words(run, rng, idx):
         for l in letters:
             M = rp.rand_invertible(rng, n + 1, cx=cx, cond_max=6.0)
             gens[l] = M / np.linalg.norm(M, 2)
-    for k, l in enumerate(letters):
+    mixed = "none"
+    if (not hyp) and ngen >= 2 and idx % 4 == 2:
+        # generators of mixed dtype, the narrower one assigned LAST (seeded change
+        # C03-r2-1: bulk word images cast to the dtype of the last generator)
+        last = letters[-1]
+        if cx:
+            gens[last] = np.real(gens[last]) + 0.0
+            if abs(np.linalg.det(gens[last])) < 1e-3:
+                gens[last] = gens[last] + np.eye(n + 1)
+            mixed = "complex-then-real"
+        else:
+            U = np.eye(n + 1, dtype=np.int64)
+            for _ in range(3):
+                i, j = rng.choice(n + 1, size=2, replace=False)
+                U[int(i)] += int(rng.integers(-1, 2)) * U[int(j)]
+            gens[last] = U
+            mixed = "float-then-int"
+
+    def assign(k, l):
         # assign through both conventions
         if k % 2 == 0:
             T = (H.Isometry if hyp else P.Transformation)(gens[l].copy(), column_vectors=True)
         else:
             T = (H.Isometry if hyp else P.Transformation)(gens[l].T.copy())
         rep[l] = T
+    for k, l in enumerate(letters):
+        assign(k, l)
+    if idx % 3 == 1:
+        # re-assign a generator on the same representation object: its inverse
+        # letter must follow (seeded change C03-r2-3: stale inverse after a
+        # second assignment)
+        l = letters[0]
+        if hyp:
+            gens[l] = rh.rand_isometry(rng, n, tmax=0.8)
+        else:
+            M2 = rp.rand_invertible(rng, n + 1, cx=cx, cond_max=6.0)
+            gens[l] = M2 / np.linalg.norm(M2, 2)
+        assign(1, l)
     x = G.interior(rng, n, pshape) if hyp else G.draw(rng, "P.Point", n, pshape, cx=cx)["X"]
     p = (H.Point if hyp else P.Point)(x.copy())
     words = [""] + [rp.random_word(rng, letters, int(L)) for L in rng.integers(1, 13, size=6)]
+    words.append(letters[0].upper() + letters[-1] + letters[0])      # always an inverse letter
     case = {"representation": type(rep).__name__, "dimension": n, "generators(column)": gens,
-            "point": x, "words": words}
+            "point": x, "words": words, "mixed_dtype": mixed, "reassigned": idx % 3 == 1}
     run.current_case = case
     want_T = H.Isometry if hyp else P.Transformation
     images = {}
